@@ -60,7 +60,7 @@ def call(e, fn):
     return e
 
 def long_mode_events(mo, M, segblocks=64):
-    """ONE real enc call on a long message, recorded as segments of whole blocks that TLC judges independently (and in parallel):
+    """ONE real enc call (and then one real dec call on its result) on a long message, recorded as segments of whole blocks that TLC judges independently (and in parallel):
     ECB - inner segments are the unpadded mode on whole blocks, the last one carries the padding scheme; CBC - the same, each segment chained
     from the RECORDED previous ciphertext block (by induction over the segments the whole chain is the specified one); CTR - op enc_at with
     the block offset.  The last segment takes everything that is left of the result."""
@@ -82,6 +82,21 @@ def long_mode_events(mo, M, segblocks=64):
             mo2 = dict(mo if last else inner, iv=B(prev))
             out.append(dict(op='enc', mo=mo2, m=B(m), raised='', obs=B(prev + (r[bl + a:] if last else r[bl + a:bl + a + seg])), long=len(M)))
     if out and mo['mode'] == 'cbc' and out[0]['mo']['iv'] != mo['iv']: out[0]['mo'] = dict(out[0]['mo'], iv=mo['iv'])     # the first segment is held to the configured IV
+    if mo['sch']['s'] == 'zero' and mo['mode'] != 'ctr': return out
+    # ONE real dec call on that ciphertext, judged the same way: a CBC segment is handed over together with the ciphertext block before it
+    try: p = make_mode(mo).dec(r)
+    except Exception as ex: return out + [dict(op='dec', mo=mo, m=B(r[:seg]), raised=type(ex).__name__, obs=[], long=len(M), whole_len=len(r))]
+    if type(p) is not bytes: return out + [dict(op='dec', mo=mo, m=B(r[:seg]), raised='', obs=[-1], long=len(M))]
+    body = r[bl:] if mo['mode'] == 'cbc' else r
+    starts = list(range(0, len(body), seg)) or [0]
+    for a in starts:
+        last = a == starts[-1]
+        if mo['mode'] == 'ctr':
+            out.append(dict(op='dec_at', mo=mo, c=a // bl, m=B(body[a:] if last else body[a:a + seg]), raised='', obs=B(p[a:] if last else p[a:a + seg]), long=len(M)))
+        elif mo['mode'] == 'ecb':
+            out.append(dict(op='dec', mo=mo if last else inner, m=B(body[a:] if last else body[a:a + seg]), raised='', obs=B(p[a:] if last else p[a:a + seg]), long=len(M)))
+        else:
+            out.append(dict(op='dec', mo=mo if last else inner, m=B(r[a:] if last else r[a:a + bl + seg]), raised='', obs=B(p[a:] if last else p[a:a + seg]), long=len(M)))
     return out
 
 def events_for(mo, M):
